@@ -195,6 +195,13 @@ def main():
         return common.finish(rep)
     scns = scenrun.enumerate_scenarios(rep, "MC_XWorldPop", cfg(rep.tier), f"c18_{rep.tier}")
     findings = scenrun.evaluate(rep, scns, eval_world, procs=a.procs)
+
+    def _mut(s):
+        if len(s["eigs"]) < 2:
+            return None
+        s["eigs"][0]["re"] += 1
+        return s
+    scenrun.self_test(rep, scns, eval_world, _mut, "real part of an eigenvalue + 1/den")
     findings += random_cases(rep, a)
     scenrun.report(rep, findings, TAGS)
     lifecycle_part(rep, a, TAGS, QUICK, THOROUGH, DEVS, quick_paths=40)
